@@ -24,7 +24,7 @@ def planted(tag, n, k):
             a[i] = pool[(k + i) % len(pool)]
         return a
     if tag == 'datetime64':
-        return np.array([np.datetime64('2020-01-01T00:00:00', 'us') + np.timedelta64(3600 * (k + i) * 1000003 + 250000, 'us')
+        return np.array([np.datetime64('2020-01-01T00:00:00', 'us') + np.timedelta64(3600 * (k + i) * 1000000 + 250000, 'us')
                          for i in range(n)], dtype='datetime64[us]')
     if tag == 'bool':
         return np.array([(k + i) % 2 == 0 for i in range(n)], dtype=np.bool_)
@@ -64,8 +64,6 @@ class Program:
         uid = '%s_%d' % (name, len(self.props.get(path, {})) + 7 * len(self.props))
         if kind == 'symint':
             v = ctx.int('int_' + uid, -2 ** 63, 2 ** 64 - 1)
-            e = v.e
-            exp_type = ('by-magnitude', v)
             self.props.setdefault(path, {})[name] = ('int', v)
             return v
         if kind.startswith('int:'):
